@@ -350,6 +350,15 @@ pub fn run_check(prop: &str, tier: Tier, seed: u64) -> i32 {
         eprintln!("property {prop} is not claimed by this machinery");
         return 2;
     }
+    // replay files of earlier runs of this property are stale now
+    if let Ok(rd) = std::fs::read_dir(format!("{VERIF_DIR}/replays")) {
+        for e in rd.flatten() {
+            let n = e.file_name().to_string_lossy().to_string();
+            if n.starts_with(&format!("{prop}-")) && n.ends_with(".json") {
+                let _ = std::fs::remove_file(e.path());
+            }
+        }
+    }
     let workers = n_workers();
     let runs = scenario::runs_for(prop, tier);
     let known = load_known();
